@@ -184,8 +184,9 @@ def defensive(program):
         node = dict(node)
         if node.get("op") == "action":
             node["defensive_finish"] = True
-        if "body" in node:
-            node["body"] = defensive(node["body"])
+        for part in ("body", "handler", "final"):
+            if node.get(part):
+                node[part] = defensive(node[part])
         out.append(node)
     return out
 
